@@ -735,7 +735,17 @@ func (r *SuRecord) callRule(th *Thread, key string) Value {
 	}
 	r.ensureDeps()
 	r.trace("call rule", key)
+	done := false
+	defer func() {
+		if !done { // the rule threw: the field is still not valid
+			if r.invalid == nil {
+				r.invalid = make(map[string]bool)
+			}
+			r.invalid[key] = true
+		}
+	}()
 	val := r.catchRule(th, rule, key)
+	done = true
 	if val != nil && !r.ob.readonly {
 		r.ob.set(SuStr(key), val)
 	}
